@@ -8,6 +8,7 @@ import (
 	"github.com/bluenviron/gomavlib/v3/pkg/message"
 
 	"verif/hd"
+	"verif/world"
 
 	"verif/dsim"
 	"verif/ref"
@@ -142,7 +143,8 @@ func fanoutRun(opt fanOpt) func(h []dsim.Rec) {
 			tcpServerEp = ep
 		}
 	}
-	cons := &consumer{e: e, pace: dsim.Choose(3)}
+	appPace := dsim.Choose(4)
+	cons := &consumer{e: e} // prompt while the deployment comes up, then at the drawn pace
 	e.cons = cons
 	if err := e.startNode(); err != nil {
 		dsim.Failf("harness", "node did not initialise: %v", err)
@@ -208,6 +210,9 @@ func fanoutRun(opt fanOpt) func(h []dsim.Rec) {
 	}
 	dsim.Sleep(300 * time.Millisecond)
 	dsim.Settle("setup")
+	e.mu.Lock()
+	cons.pace = appPace
+	e.mu.Unlock()
 	setupEvents := cons.snapshot()
 	chOf := map[*link]*gomavlib.Channel{}
 	for ch, l := range e.chanLinks(setupEvents) {
@@ -297,6 +302,27 @@ func fanoutRun(opt fanOpt) func(h []dsim.Rec) {
 			l := l
 			d.spawn("peer-hb", func() { l.sendHeartbeat(3) })
 		}
+	}
+	// a transient read error on a custom transport: its channel is replaced while the writers go
+	// on; the link is only checked for order, at-most-once and whole frames from then on
+	var flaky *link
+	if dsim.Choose(4) == 3 {
+		for _, l := range stable {
+			if l.ep.kind == epCustom {
+				flaky = l
+			}
+		}
+	}
+	if flaky != nil {
+		flaky.lossy = true
+		at := time.Duration(dsim.Choose(4000)) * time.Millisecond
+		d.spawn("flaky", func() {
+			dsim.Sleep(at)
+			flaky.ep.pipe.SetFaults(world.Faults{ReadErrAt: flaky.ep.pipe.ReadCount() + 1, ReadErr: errInjectedRead, ReadErrOnce: true})
+			count("fault:transient-read-error")
+			flaky.send(sendValid, false) //nolint: makes the node return from its pending read and read again
+			flaky.send(sendValid, false) //nolint
+		})
 	}
 	// incoming traffic on stable links
 	for _, l := range stable {
@@ -408,7 +434,7 @@ func fanoutRun(opt fanOpt) func(h []dsim.Rec) {
 				}
 				var dl []*link
 				for _, l := range stable {
-					if it.dests[l] {
+					if it.dests[l] && !l.lossy {
 						dl = append(dl, l)
 					}
 				}
@@ -491,6 +517,11 @@ func (e *env) checkFanoutEx(stable, lossy, churn []*link, items [][]fanItem) {
 	for _, l := range lossy {
 		isLossy[l] = true
 	}
+	for _, l := range stable {
+		if l.lossy {
+			isLossy[l] = true
+		}
+	}
 	stable = append(append([]*link(nil), stable...), lossy...)
 	parse := func(l *link) ([]wireItem, bool) {
 		frames, _, rest, err := ref.ParseStream(l.wire())
@@ -549,7 +580,9 @@ func (e *env) checkFanoutEx(stable, lossy, churn []*link, items [][]fanItem) {
 				return
 			}
 			it := items[g.writer-1][g.index]
-			if it.never[l] {
+			// (a replaced channel is a new *Channel: exclusions and targets drawn before the replacement
+			// name the old one, targets drawn after it may name the new one)
+			if it.never[l] && !isLossy[l] {
 				dsim.Failf("isolation", "%s received w%d#%d (%s %s) which must not reach it", l.name, g.writer, g.index, opNames[it.sub.op], it.sub.special)
 				return
 			}
@@ -626,6 +659,10 @@ func (e *env) checkFanoutEx(stable, lossy, churn []*link, items [][]fanItem) {
 	}
 	for _, w := range e.writers {
 		for _, s := range w.subs {
+			if s.t1-s.t0 > time.Second {
+				dsim.Failf("write-returns", "w%d#%d %s was blocked for %v (simulated) although every channel was healthy and below its queue bound: writes must not wait for the application to consume events or for other channels", w.id, s.idx, opNames[s.op], s.t1-s.t0)
+				return
+			}
 			if !s.accepted {
 				dsim.Failf("write-accepted", "w%d#%d %s %s returned %v", w.id, s.idx, opNames[s.op], s.special, s.err)
 				return
